@@ -161,6 +161,66 @@ def builder_work(args):
     return out
 
 
+def forms_work(args):
+    """alternative constructor forms under the transformations: Plane(a, b, c, d), Plane(p1, p2, p3), Line(p1, p2), Segment(p, v),
+    HalfLine(p1, p2) built from TRANSFORMED arguments must equal the transformed object (and must not start raising)"""
+    seed, n, idx = args
+    from .. import impl
+    from ..impl import Point, Vector, Line, Plane, Segment, HalfLine
+    R = random.Random(seed)
+    out = []
+    for i in range(n):
+        T = (R.choice(SYMS), tuple(F(R.randint(-4, 4)) for _ in range(3)), R.choice(KS))
+        sym, t, k = T
+        form = ['gf', 'gf', 'p3', 'l2', 'sv', 'h2'][(idx + i) % 6]
+        rec = dict(form=form, T=T)
+        try:
+            if form == 'gf':
+                nrm = tuple(F(R.randint(-3, 3)) for _ in range(3))
+                zero = R.choice([(), (0,), (1,), (2,), (0, 1), (0, 2), (1, 2)])
+                nrm = tuple(F(0) if j in zero else (c if c != 0 else F(R.choice([-2, -1, 1, 2]))) for j, c in enumerate(nrm))
+                if nrm == (0, 0, 0):
+                    nrm = (F(0), F(-1), F(0))
+                d = F(R.randint(-8, 8), 2)
+                n2 = sp(sym, nrm)
+                d2 = k * d + E.dot(n2, t)
+                rec['args'] = (nrm, d)
+                make0 = lambda: Plane(*[float(c) for c in nrm], float(d))
+                make1 = lambda: Plane(*[float(c) for c in n2], float(d2))
+            else:
+                pts = [tuple(F(R.randint(-12, 12), 4) for _ in range(3)) for _ in range(3)]
+                if E.is0(E.cross(E.sub(pts[1], pts[0]), E.sub(pts[2], pts[0]))):
+                    pts[2] = E.add(pts[2], (F(1), F(2), F(-3)))
+                    if E.is0(E.cross(E.sub(pts[1], pts[0]), E.sub(pts[2], pts[0]))):
+                        pts[2] = E.add(pts[2], (F(0), F(1), F(0)))
+                rec['args'] = pts
+                P = lambda x: impl.Pt(x)
+                V = lambda x: impl.Vc(x)
+                q = [tpt(T, x) for x in pts]
+                if form == 'p3':
+                    make0, make1 = (lambda: Plane(P(pts[0]), P(pts[1]), P(pts[2]))), (lambda: Plane(P(q[0]), P(q[1]), P(q[2])))
+                elif form == 'l2':
+                    make0, make1 = (lambda: Line(P(pts[0]), P(pts[1]))), (lambda: Line(P(q[0]), P(q[1])))
+                elif form == 'sv':
+                    v = E.sub(pts[1], pts[0])
+                    make0, make1 = (lambda: Segment(P(pts[0]), V(v))), (lambda: Segment(P(q[0]), V(tdir(T, v))))
+                else:
+                    make0, make1 = (lambda: HalfLine(P(pts[0]), P(pts[1]))), (lambda: HalfLine(P(q[0]), P(q[1])))
+            o0 = impl.call(make0)
+            o1 = impl.call(make1)
+            rec['o0'] = ('ok', impl.describe(o0[1])) if o0[0] == 'ok' else o0
+            rec['o1'] = ('ok', impl.describe(o1[1])) if o1[0] == 'ok' else o1
+            if o0[0] == 'ok' and o1[0] == 'ok':
+                d0 = impl.describe(o0[1])
+                d0x = (d0[0],) + tuple(tuple(F(c) for c in part) for part in d0[1:])
+                want = impl.build(tobj(T, d0x))
+                rec['eq'] = impl.call(lambda: (o1[1] == want, want == o1[1]))
+        except Exception as e:
+            rec['exc'] = '%s: %s' % (type(e).__name__, str(e)[:100])
+        out.append(rec)
+    return out
+
+
 def close(x, y, rel=1e-9):
     return abs(x - y) <= rel * max(1.0, abs(y))
 
@@ -242,6 +302,30 @@ def run(ctx, scale=1):
             ctx.stats['DISAGREE builders'] += 1
             ctx.violation(key, key + ': %s but the image gives %s (counts / area / volume must be invariant)' % (b0[1:], b1[1:]),
                           dict(builder=r['kind'], c=gen.jsonable(r['c']), n=gen.jsonable(r['n']), r=r['r'], nn=r['nn'], perm=list(r['sym'][0]), signs=list(r['sym'][1])))
+    # alternative constructor forms under the transformations
+    frecs = []
+    for part in core.pmap(forms_work, core.chunks(ctx, ctx.n(1200, 24000) * scale, per=60)):
+        frecs.extend(part)
+    names = dict(gf='Plane(a, b, c, d)', p3='Plane(p1, p2, p3)', l2='Line(p1, p2)', sv='Segment(p, v)', h2='HalfLine(p1, p2)')
+    for r in frecs:
+        sym, t, k = r['T']
+        key = '%s args %s under %s%s t=%s k=%s' % (names[r['form']], r.get('args'), sym[0], sym[1], gen.tv(t), k)
+        ctx.count(key)
+        ctx.dist['constructor form ' + names[r['form']]] += 1
+        pr = []
+        if 'exc' in r:
+            pr.append('harness: ' + r['exc'])
+        elif r['o0'][0] != 'ok':
+            pr.append('raises on the base arguments: %s' % (r['o0'][1:],))
+        elif r['o1'][0] != 'ok':
+            pr.append('the base arguments give %s but the transformed arguments raise %s' % (r['o0'][1][0], r['o1'][1:]))
+        elif r.get('eq') != ('ok', (True, True)):
+            pr.append('object built from the transformed arguments != transformed object: %s' % (r.get('eq'),))
+        if not pr:
+            ctx.stats['agree constructor forms'] += 1
+        else:
+            ctx.stats['DISAGREE constructor forms'] += 1
+            ctx.violation(key, key + ': ' + '; '.join(pr), dict(form=r['form'], args=gen.jsonable(list(r.get('args') or [])), perm=list(sym[0]), signs=list(sym[1]), t=gen.jsonable(t), k=gen.fr(k)))
     for r in recs[:3]:
         ctx.sample('a=%s b=%s transforms %s' % (tok(r['A'])[:100], tok(r['B'])[:100], [(T[0], gen.tv(T[1]), str(T[2])) for T in r['trs']]))
 
@@ -253,7 +337,37 @@ def search(ctx):
 def replay(ctx, case):
     from .. import impl
     c = case['case']
-    A, B = gen.from_jsonable(c['a']), gen.from_jsonable(c['b'])
+    if 'form' in c:
+        from ..impl import Point, Vector, Line, Plane, Segment, HalfLine
+        T = ((tuple(c['perm']), tuple(c['signs'])), tuple(F(x) for x in c['t']), F(c['k']))
+        sym, t, k = T
+        args = gen.from_jsonable(c['args'])
+        P, V = impl.Pt, impl.Vc
+        if c['form'] == 'gf':
+            nrm, d = tuple(args[0]), args[1]
+            n2 = sp(sym, nrm)
+            d2 = k * d + E.dot(n2, t)
+            make0 = lambda: Plane(*[float(x) for x in nrm], float(d))
+            make1 = lambda: Plane(*[float(x) for x in n2], float(d2))
+        else:
+            pts = [tuple(x) for x in args]
+            q = [tpt(T, x) for x in pts]
+            v = E.sub(pts[1], pts[0])
+            make0, make1 = dict(p3=(lambda: Plane(P(pts[0]), P(pts[1]), P(pts[2])), lambda: Plane(P(q[0]), P(q[1]), P(q[2]))),
+                                l2=(lambda: Line(P(pts[0]), P(pts[1])), lambda: Line(P(q[0]), P(q[1]))),
+                                sv=(lambda: Segment(P(pts[0]), V(v)), lambda: Segment(P(q[0]), V(tdir(T, v)))),
+                                h2=(lambda: HalfLine(P(pts[0]), P(pts[1])), lambda: HalfLine(P(q[0]), P(q[1]))))[c['form']]
+        o0, o1 = impl.call(make0), impl.call(make1)
+        print('form', c['form'], 'args', c['args'], 'T', T)
+        print('base       :', o0)
+        print('transformed:', o1)
+        ok = o0[0] == 'ok' and o1[0] == 'ok'
+        if ok:
+            d0 = impl.describe(o0[1])
+            want = impl.build(tobj(T, (d0[0],) + tuple(tuple(F(x) for x in part) for part in d0[1:])))
+            ok = (o1[1] == want) and (want == o1[1])
+        print('AGREE' if ok else 'VIOLATION property=C13')
+        return 0 if ok else 1
     if 'builder' in c:
         import Geometry3D as g3
         from ..impl import Point, Vector
@@ -274,6 +388,7 @@ def replay(ctx, case):
     if 'perm' not in c:
         print(c)
         return 1
+    A, B = gen.from_jsonable(c['a']), gen.from_jsonable(c['b'])
     T = ((tuple(c['perm']), tuple(c['signs'])), tuple(F(x) for x in c['t']), F(c['k']))
     base = observe(impl, A, B)
     af = observe(impl, tobj(T, A), tobj(T, B))
